@@ -76,7 +76,11 @@ func (c20) build(src *gen.Source) *Case {
 		case 3:
 			op = Op{Op: "get", Name: anyName()}
 		case 4:
-			op = Op{Op: "walk"}
+			if src.Chance(1, 2) {
+				op = Op{Op: "walk"}
+			} else {
+				op = Op{Op: "parse", Value: src.Pick([]string{"ll a; b\n", "ll\n", "x=1 ll $x ${y:=2}\n", "ll | ll && $((z=3))\n", "alias ll=x\n"})}
+			}
 		case 5:
 			if src.Chance(1, 2) {
 				k := src.Intn(4)
@@ -91,7 +95,7 @@ func (c20) build(src *gen.Source) *Case {
 		case 6, 7, 8:
 			tmpl := src.Pick([]string{"${N}", "${N:-W}", "${N:=W}", "${N=W}", "${N:?}", "${N?}", "${#N}", "${N:+W}", "${N+W}", "${N%P}", "${N%%P}", "${N#P}", "${N##P}"})
 			tmpl = strings.ReplaceAll(tmpl, "P", src.Pick([]string{"*", "p*", "?", "1", "a*", "*3", "z"}))
-			op = Op{Op: "expand", Name: anyName(), Value: strings.ReplaceAll(tmpl, "W", src.Pick(c20Words)), Mode: uint(src.Intn(2)) * uint(interp.Quote)}
+			op = Op{Op: "expand", Name: anyName(), Value: strings.ReplaceAll(tmpl, "W", src.Pick(c20Words)), Mode: []uint{0, uint(interp.Quote), 0, uint(interp.Literal), uint(interp.Pattern), uint(interp.Assign), uint(interp.Arith), 0}[src.Intn(8)]}
 		case 9, 10:
 			tmpl := src.Pick([]string{"$((N=K))", "$((N+=K))", "$((N++))", "$((--N))", "$((N-=K))", "$((N*=K))", "$((1/0))", "$((08))", "$((N+1/0))", "$((N N))", "$((N))", "$((N+K))", "$((N+=M))", "$((N*=M))", "$((N=M))", "$((N-=M))"})
 			tmpl = strings.ReplaceAll(tmpl, "M", src.Pick([]string{"_y1", "X", "HOME"}))
@@ -102,6 +106,9 @@ func (c20) build(src *gen.Source) *Case {
 			op = Op{Op: "eval", Name: src.Pick(c20Ordinary), Value: strings.ReplaceAll(tmpl, "K", src.Pick([]string{"0", "1", "5", "12"}))}
 		}
 		op.Value = strings.ReplaceAll(op.Value, "N", op.Name)
+		// observing changes what is observed (a Walk may clean up, a Get may refill a cache):
+		// how much is looked at after each step is part of the history
+		op.Observe = []int{2, 0, 1, 0, 2, 1}[src.Intn(6)]
 		c.History = append(c.History, op)
 	}
 	c.GenTape = src.Rec
@@ -351,8 +358,23 @@ func (p c20) Run(t *testing.T, c *Case, s Sched, keepLog bool) *Obs {
 			case "get":
 				v, set := env.Get(op.Name)
 				parts = append(parts, fmt.Sprintf("get %s=%q,%v", op.Name, v.Value, set))
+				if op.Name != "@" && op.Name != "*" {
+					mv, mset := m.get(op.Name)
+					got, want := v.Value, mv
+					if op.Name == "-" {
+						got, want = sortLetters(got), sortLetters(want)
+					}
+					if set != mset || (set && got != want) {
+						add("store-differs-from-model", fmt.Sprintf("%s: Get = (%q, %v), model says (%q, %v)", desc, v.Value, set, mv, mset))
+					}
+				}
 			case "walk":
 				// compared below on every step anyway
+			case "parse":
+				// parsing with this environment (alias substitution) must not change it
+				sim.Yield(gosim.PCallerMark)
+				cmds, _, err := parser.ParseCommands(env, "h", op.Value)
+				parts = append(parts, fmt.Sprintf("parse %q -> %d %s", op.Value, len(cmds), DumpErr(err)))
 			case "args":
 				env.Args = append([]string{}, op.Args...)
 				m.args = append([]string{}, op.Args...)
@@ -415,6 +437,17 @@ func (p c20) Run(t *testing.T, c *Case, s Sched, keepLog bool) *Obs {
 				if after := Dump(word, 0); after != before {
 					add("ast-modified", fmt.Sprintf("%s: the word given to Expand was modified: %s", desc, firstDiff(before, after)))
 				}
+				// the value delivered: "${N}" as if in double quotes (or literally) is exactly the parameter's value
+				if err == nil && op.Value == "${"+op.Name+"}" && op.Name != "@" && op.Name != "*" && (op.Mode == uint(interp.Quote) || op.Mode == uint(interp.Literal)) {
+					mv, _ := m.get(op.Name)
+					if op.Name == "-" {
+						if len(fields) == 1 && sortLetters(fields[0]) != sortLetters(mv) {
+							add("expansion-differs-from-model", fmt.Sprintf("%s: fields %q, model value %q", desc, fields, mv))
+						}
+					} else if len(fields) != 1 || fields[0] != mv {
+						add("expansion-differs-from-model", fmt.Sprintf("%s: fields %q, model value %q", desc, fields, mv))
+					}
+				}
 				// model effect
 				val, set := m.get(op.Name)
 				null := val == ""
@@ -458,8 +491,22 @@ func (p c20) Run(t *testing.T, c *Case, s Sched, keepLog bool) *Obs {
 					}
 				}
 			}
-			// ---- compare with the model after every step
-			for _, n := range append(append(append([]string{}, c20Ordinary...), "#", "?", "-", "!", "0"), c20Positional...) {
+			// ---- compare with the model (how much is looked at is part of the history; the last step looks at everything)
+			observe := op.Observe
+			if si == len(c.History)-1 {
+				observe = 2
+			}
+			universe := append(append(append([]string{}, c20Ordinary...), "#", "?", "-", "!", "0"), c20Positional...)
+			switch observe {
+			case 0:
+				universe = nil
+			case 1:
+				universe = nil
+				if op.Name != "" && op.Name != "@" && op.Name != "*" {
+					universe = []string{op.Name}
+				}
+			}
+			for _, n := range universe {
 				v, set := env.Get(n)
 				mv, mset := m.get(n)
 				got, want := v.Value, mv
@@ -470,16 +517,19 @@ func (p c20) Run(t *testing.T, c *Case, s Sched, keepLog bool) *Obs {
 					add("store-differs-from-model", fmt.Sprintf("after %s: Get(%q) = (%q, %v), model says (%q, %v)", desc, n, v.Value, set, mv, mset))
 				}
 			}
-			var walked []string
-			env.Walk(func(v interp.Var) { walked = append(walked, v.Name+"="+v.Value) })
-			sort.Strings(walked)
-			var want []string
-			for k, v := range m.vars {
-				want = append(want, k+"="+v)
-			}
-			sort.Strings(want)
-			if strings.Join(walked, "\x00") != strings.Join(want, "\x00") {
-				add("walk-differs-from-model", fmt.Sprintf("after %s: Walk gives %q, model has %q", desc, walked, want))
+			if observe == 2 {
+				var walked []string
+				env.Walk(func(v interp.Var) { walked = append(walked, v.Name+"="+v.Value) })
+				sort.Strings(walked)
+				var want []string
+				for k, v := range m.vars {
+					want = append(want, k+"="+v)
+				}
+				sort.Strings(want)
+				// compared as sorted LISTS: an entry enumerated twice is a difference
+				if strings.Join(walked, "\x00") != strings.Join(want, "\x00") {
+					add("walk-differs-from-model", fmt.Sprintf("after %s: Walk gives %q, model has %q", desc, walked, want))
+				}
 			}
 			if fmt.Sprintf("%q", env.Args) != fmt.Sprintf("%q", m.args) {
 				add("args-modified", fmt.Sprintf("after %s: Args = %q, expected %q", desc, env.Args, m.args))
